@@ -13,13 +13,14 @@ def check_C14(tier, seed):
         segment_map.generate(D.REPO, os.path.join(D.COQ, "theories", "Gen", "SegmentMap.v"))
     t1.__name__ = "T1 segment_map (partition_segment.rs, codec.rs)"
     return standard_check(
-        "C14", tier, seed, "files", ["c14_envelope", "c14_segments", "c14_catalogue", "c14_wal", "c14_open_corrupt"], translators=[t1],
+        "C14", tier, seed, "files", ["c14_envelope", "c14_segments", "c14_catalogue", "c14_catalogue_ser", "c14_catalogue_de", "c14_wal", "c14_open_corrupt"], translators=[t1],
         trusted=["sha2 crate as the digest (supplied to the model as an oracle leaf; theorems quantify over any digest function with 32-byte output)",
-                 "capnp packed serialisation is not modelled: partition-segment, catalogue and WAL-segment round trips are checked by the object-level oracle suites only",
+                 "capnp packed serialisation is not modelled: partition-segment and WAL-segment round trips are checked by the object-level oracle suites only; the catalogue is modelled at capnp FIELD level (Model/CatalogueCodec.v, v2 compressed legacy fields excluded) and tied by c14_catalogue_ser (real writer's message taken apart field by field) and c14_catalogue_de (hand-built current/v0/v1 messages through the real reader)",
                  "translator T1 (translators/segment_map.py): codec-op / data-section / encoding-type match arms of PartitionSegment::{serialize,deserialize}"],
         assumptions=["bytes are < 256", "payload length <= 2^64 - 49"],
         rule="envelope: for each payload (lengths 0, 1, small, medium, large) EVERY single-bit flip, EVERY truncation length, suffixes of 6 lengths, plus foreign blobs in 4 classes; "
              "objects: seeded columns of 14 codec/data-section shapes, catalogues of 0-4 tables, event buffers over all 7 column representations; "
+             "catalogue codec: catalogues with empty / repeated / unordered last columns and a cursor behind the next WAL id; messages in the current, v0, v1 and mixed formats, duplicated (table,id) keys, interned ids outside the string table; "
              "non-trivial = every corruption / object case; distinct by input hash")
 
 
@@ -41,8 +42,9 @@ CLAIMED = {
              "what store writes for the returned payload (so any bit flip, truncation, extension or foreign blob is rejected unless it is itself a genuine file, "
              "with sha256 collisions as an explicit disjunct; truncations/extensions rejected by a pure length argument); and, over maps REGENERATED from the source on "
              "every run, that the hand-enumerated codec-op, data-section and encoding-type arms of the partition-segment serialiser and deserialiser are mutually inverse "
-             "and total. The envelope model is tied to the Rust writer by "
-             "an exhaustive corruption sweep (every bit, every truncation) compared case by case with the extracted model; partition segments, catalogues and WAL "
+             "and total; and, over a field-level model of the catalogue codec, that a catalogue reads back exactly (cursor, every partition and sub-partition field, rebuilt index), that the reader's "
+             "handling of the older formats yields the greatest listed column name, that its only panic is an interned id outside the string table, and that a later duplicate entry wins. The envelope model is tied to the Rust writer by "
+             "an exhaustive corruption sweep (every bit, every truncation) compared case by case with the extracted model; the catalogue model by taking the real writer's message apart field by field and by feeding hand-built messages of every format generation to the real reader; partition segments, catalogues and WAL "
              "segments are round-tripped through the real capnp codecs for every codec-op / data-section / event-buffer arm (oracle, capnp not modelled).",
         note="Trusted: Coq kernel, extraction, harness glue, sha2 and capnp crates. The object-level (capnp) round trips are differential testing, not proof.",
         technique="Coq proof of envelope soundness/completeness + exhaustive corruption-sweep correspondence + object round-trip oracle",
